@@ -199,6 +199,36 @@ impl Core {
                     .unwrap_or_else(|| "panic".into()),
                 )
             }
+            "execrt" => {
+                // execute on a context that went through a JSON round trip (same scheme)
+                let text = text_of(w.get(1)?)?;
+                self.ctx();
+                let (spec, scheme, ctx) = (&self.spec, &self.scheme, self.ctx.as_ref().unwrap());
+                Some(
+                    core::no_panic(|| {
+                        use serde::de::DeserializeSeed;
+                        let ast = match spec.parser(scheme).parse(&text) {
+                            Ok(a) => a,
+                            Err(_) => return "err".to_string(),
+                        };
+                        let json = match serde_json::to_string(ctx) {
+                            Ok(j) => j,
+                            Err(_) => return "ser-err".to_string(),
+                        };
+                        let mut ctx2 = ExecutionContext::<()>::new(scheme);
+                        let mut de = serde_json::Deserializer::from_str(&json);
+                        if ctx2.deserialize(&mut de).is_err() {
+                            return "de-err".to_string();
+                        }
+                        let f = ast.compile();
+                        match f.execute(&ctx2) {
+                            Ok(b) => b.to_string(),
+                            Err(_) => "exec-err".to_string(),
+                        }
+                    })
+                    .unwrap_or_else(|| "panic".into()),
+                )
+            }
             "value" => {
                 let text = text_of(w.get(1)?)?;
                 self.ctx();
